@@ -278,6 +278,30 @@ for _k, _v in ADD_TEXT_R8.items():
     ADD_TEXT[_k] = ADD_TEXT.get(_k, "") + _v
 
 
+ADD_TEXT_R9 = {
+    "C01": " Generic to all matcher-side checks: for one call in eight a twin matcher with both full-match flags flipped is constructed between constructing the matcher and asking it.",
+    "C02": " Class capture-user-range: ranged items / groups / register-family occurrences that use a capture, ranges of width 1-3 and 63-90, runs at min-1 .. max+1 and max+min (F47); relation operand-plain: times beside a plain operand (F48).",
+    "C04": " The operand-level $not also as a child of operand-level $and / $or / $and_any_order.",
+    "C05": " Form ranged-user-after-rebinding (item, $and / $or group, $not, $not around a ranged group - all using a capture whose definition sits between optional items, F47); capture names that look like a family (&framereg-old.64 / .32); capture names spelled through a string macro.",
+    "C06": " One rip-relative rule in three names the base alone; one rule in four is delivered through a one-argument macro whose formal is a short name contained in the literal fields.",
+    "C07": " Fixed family deref-as-item ($deref where an instruction is expected: rejected, or aligned matches, F51); a one-address range that tags a call / jmp target of the listing, the model tagged accordingly.",
+    "C08": " Symbol names as objdump -C prints them (templates with '> ', commas, parentheses); one objdump call in five runs on a hard link with a bare hexadecimal name.",
+    "C09": " Exact-length long listings around 4096 .. 131072 instructions.",
+    "C10": " Family sectioned: long listings of several sections, the stream asked for with rules that occur early / late / never, first-match and all-matches.",
+    "C11": " Fixed family macro-twice: one list macro invoked twice with different times, the scan judged against the reference over the inlined rule.",
+    "C12": " Families binary-sections (binary input, sections in / out of file order, a rule straddling the section boundary) and many-hits (70 000 hits, 4.3 MB of matched text).",
+    "C13": " Kinds second-in-name and chain-of-three, macro names containing '-' and '.'.",
+    "C14": " Pool operations that register captures and then fail to compile; NNh literals under both operands-full-match settings.",
+    "C15": " Object files under names with blanks, quotes, backslashes; section names with a blank / quote.",
+    "C16": " PLT stub names (<puts@plt>) in annotations under the range rule.",
+    "C17": " Faults yaml-second-document, times-bool-* / times-boolbounds-* (F50), macro-use-label-misspelt / -argument-missing / -operand-list-under-list-macro (F49); path faults also after a successful load of the same path in the same process.",
+    "C19": " Lost-reference family: seven shapes (operand list under a list macro, sibling key, inner key, beside another invocation, unused formal, beside a string macro with times, surplus list elements) x undefined / begins-like-defined / defined x four definition orders (F45, F46); an ill-named twin of a well-named definition.",
+    "C20": " The binary under the bare name of a program on PATH; the INFO log file that cannot be opened (the command fails or reports once).",
+}
+for _k, _v in ADD_TEXT_R9.items():
+    ADD_TEXT[_k] = ADD_TEXT.get(_k, "") + _v
+
+
 def main():
     checks = []
     for pid in ALL:
